@@ -14,7 +14,7 @@ let h (s : string) : carrier = f2c (float_of_hex s)
 type st = {
   mutable spec : string;
   mutable syms : tf list;
-  mutable site : site option;
+  mutable sites : site list;
   mutable cell : cell option;
   mutable kind : char;
   mutable segs : seg list;
@@ -39,7 +39,7 @@ type st = {
   mutable molb : lj list;
 }
 
-let fresh () = { spec = ""; syms = []; site = None; cell = None; kind = '?'; segs = []; discs = []; ljs = [];
+let fresh () = { spec = ""; syms = []; sites = []; cell = None; kind = '?'; segs = []; discs = []; ljs = [];
                  radius = 0.; area = 0.; rel = []; cart = []; img_hdr = None; imgs = []; score = None;
                  carea = None; minsep = nan; pair = None; muls = []; lj2 = None; nomodel = false; ord = None; ljm = None; mola = []; molb = [] }
 
@@ -163,10 +163,10 @@ let run_case (c : st) : string =
        chk "intersects(a,b)" m_ab ab; chk "intersects(b,a)" m_ba ba
    | None when c.ord <> None || c.ljm <> None -> ()
    | None ->
-       let site = match c.site with Some s -> s | None -> failwith "no site" in
+       let sites = if c.sites = [] then failwith "no site" else c.sites in
        let cell = match c.cell with Some s -> s | None -> failwith "no cell" in
        let scale = Float.max 1. (Float.max (Float.abs (c2f cell.c_len)) (Float.abs (c2f cell.c_len *. c2f cell.c_ratio))) in
-       let rel_m = positions numF c.syms site in
+       let rel_m = List.concat_map (positions numF c.syms) sites in
        let rel_i = List.rev c.rel in
        if List.length rel_m <> List.length rel_i then
          note (Printf.sprintf "%d relative positions, model %d" (List.length rel_i) (List.length rel_m))
@@ -280,7 +280,7 @@ let run_case (c : st) : string =
         | None -> ()
         | Some impl_score ->
             if c.kind = 'J' then begin
-              let stj = { l_syms = c.syms; l_site = site; l_cell = cell; l_shape = c.ljs } in
+              let stj = { l_syms = c.syms; l_sites = sites; l_cell = cell; l_shape = c.ljs } in
               match lj_score numF powi stj, impl_score with
               | Some m, Some i ->
                   let m = c2f m in
@@ -292,7 +292,7 @@ let run_case (c : st) : string =
               | None, _ -> note "LJ score: model returned None"
             end else begin
               let shape = if c.kind = 'P' then Poly c.segs else Mol c.discs in
-              let stp = { p_syms = c.syms; p_site = site; p_cell = cell; p_shape = shape;
+              let stp = { p_syms = c.syms; p_sites = sites; p_cell = cell; p_shape = shape;
                           p_radius = f2c c.radius; p_area = f2c c.area } in
               match packed_score numF stp, impl_score with
               | Some m, Some i ->
@@ -322,7 +322,7 @@ let main (path : string) : unit =
          match l.[0], toks with
          | 'K', _ -> cur := fresh (); (!cur).spec <- String.sub l 2 (String.length l - 2)
          | 'S', _ :: r -> c.syms <- c.syms @ [ tf_of_arr (nine r) ]
-         | 'T', [_; x; y; cs; sn] -> c.site <- Some { s_x = h x; s_y = h y; s_cos = h cs; s_sin = h sn }
+         | 'T', [_; x; y; cs; sn] -> c.sites <- c.sites @ [ { s_x = h x; s_y = h y; s_cos = h cs; s_sin = h sn } ]
          | 'L', [_; a; r; cs; sn] -> c.cell <- Some { c_len = h a; c_ratio = h r; c_cos = h cs; c_sin = h sn }
          | ('P' | 'M' | 'J'), _ -> c.kind <- l.[0]
          | 'I', [_; a; b; cc; d] when c.kind = 'P' -> c.segs <- c.segs @ [ { sx1 = h a; sy1 = h b; sx2 = h cc; sy2 = h d } ]
